@@ -400,6 +400,8 @@ func c20ErrClass(err error) string {
 		return "unsupBinary"
 	case m == "c20: read-only" || m == "environment is read-only":
 		return "readOnly"
+	case strings.HasPrefix(m, "unsupported assignment target"):
+		return "unsupTarget"
 	}
 	return "other:" + strings.ReplaceAll(m, " ", "_")
 }
